@@ -42,6 +42,14 @@ CHECKS = {
              note=BASE_NOTE + "tokio, the node controller and String::from_utf8 are stand-ins/parameters (harness/shims/tokio, mock FIFO, abstract dec). "
              "Full strength after fix 7eacd09 (oversized frame body drained).",
              tech="Lean 4 proof (induction over the frame list; split/trim lemmas) + differential correspondence + oracle", ref="§6 C24"),
+ "C20": dict(text="C20_restore_snapshot / C20_stays_equal / C20_order_irrelevant / C20_bad_snapshot_rejected: the application's snapshot/restore "
+             "(bincode encoding of ClusterState modelled byte for byte) round-trips every state whose numbers fit u64, then stays equal under any "
+             "further commands, whatever the hash-map iteration order. The adapter half of the statement is FALSE on this tree: "
+             "C20_counterexample_adapterSnapshotsEmptyMap (+ C20_adapter_diverges) — known finding, replayed through the real Metadata::restore "
+             "on every run; C20_adapter_model_tied re-checks the translator facts about storage.rs.",
+             note=BASE_NOTE + "bincode/octopii stand-ins; the adapter file itself cannot be built offline (openraft/tokio missing) and is tied by "
+             "translator facts only. Partial: the adapter clause is a recorded finding, not a theorem that holds.",
+             tech="Lean 4 proof (encode/decode round trip by structural induction) + translator facts + differential correspondence + oracle", ref="§6 C20"),
 }
 NOT_APPLICABLE = {
  "C19": "statement about the vendored openraft core + QUIC transport + tokio runtime, none of which can be built or run offline here (tokio, quinn, rustls, futures absent from the registry); a free-standing Raft proof would be tied to nothing (DESIGN.md §6 C19)",
